@@ -7,7 +7,8 @@
 //
 //	n       = number of points written: a number, or <k>c+<m> = k*defaultEdgeBufferSize + m
 //	chain   = node kinds after the implicit `stream` source, comma separated:
-//	          from | where | post | alert | influx:<B> | udf | fail:<K> | loop
+//	          from | where | post | alert | influx:<B> | udf | fail:<K> | loop |
+//	          barrier:<ms> (idle, delete) | pbarrier:<ms> (period, delete) | barriernd:<ms> (idle, no delete)
 //	stop    = task (TaskMaster.StopTask) | delete (DeleteTask) | close (TaskMaster.Close)
 //	class   = drained (stop after everything was handed over) | gated (outputs blocked until the stop is
 //	          under way) | immediate (stop right after the last write returned) | early (n=0, stop right
@@ -81,7 +82,7 @@ func parseChain(s string) ([]nodeSpec, error) {
 		}
 		switch ns.kind {
 		case "from", "where", "post", "alert", "udf", "loop":
-		case "influx", "fail":
+		case "influx", "fail", "barrier", "pbarrier", "barriernd":
 			if len(p) != 2 {
 				return nil, fmt.Errorf("%s needs an argument", ns.kind)
 			}
@@ -120,7 +121,7 @@ func (r result) String() string {
 
 func mkPoints(from, to int) []imodels.Point {
 	pts := make([]imodels.Point, 0, to-from)
-	base := time.Unix(1600000000, 0).UTC()
+	base := time.Unix(4102444800, 0).UTC() // year 2100: a periodic barrier drops points older than the wall clock
 	for i := from; i < to; i++ {
 		p, err := imodels.NewPoint("m", imodels.NewTags(map[string]string{"h": "a"}), imodels.Fields{"i": int64(i)}, base.Add(time.Duration(i)*time.Second))
 		if err != nil {
@@ -175,6 +176,12 @@ func runCase(chainS, stopKind, class string, n int, stopBound time.Duration) (re
 			fmt.Fprintf(&sb, "  @failer().k(%d)\n", ns.arg)
 		case "loop":
 			sb.WriteString("  |kapacitorLoopback().database('lo').retentionPolicy('lr')\n")
+		case "barrier":
+			fmt.Fprintf(&sb, "  |barrier().idle(%dms).delete(TRUE)\n", ns.arg)
+		case "pbarrier":
+			fmt.Fprintf(&sb, "  |barrier().period(%dms).delete(TRUE)\n", ns.arg)
+		case "barriernd":
+			fmt.Fprintf(&sb, "  |barrier().idle(%dms)\n", ns.arg)
 		}
 	}
 
